@@ -17,13 +17,16 @@ RULE = ("Hypothesis: well-formed sequences (pitches biased to both range ends 21
         "no wrap => exact shift with onsets/durations/velocities untouched and transpose(-n) restores; key events / bar "
         "key never None and tonic shifted by n mod 12. Non-trivial: interval != +-1, or a key signature present, or a note "
         "within 12 of a range end. Distinct by case digest.")
+RULE = RULE + " Round j: intervals 87+12k, single-key pools on 21 / 108."
 ASSUMPTIONS = ["enharmonic spelling of transposed keys is free (tonic pitch class compared)",
                "when notes are octave-wrapped the library additionally normalises and re-quantises note lengths; only range, "
                "image-of-original and the flag are checked then (as the statement says)"]
 TIERS = {"quick": dict(shards=8, examples=2000, alt_ppqn=[480], alt_shards=2),
          "thorough": dict(fuzz_runs=20000, fuzz_shards=4, shards=16, examples=20000, alt_ppqn=[480, 7, 1000], alt_shards=2)}
 
-INTERVALS = [0, 1, -1, 5, -5, 7, -7, 12, -12, 24, -24, 88, -88, 100, -100, 127, -127, 36, -36]
+INTERVALS = [0, 1, -1, 5, -5, 7, -7, 12, -12, 24, -24, 88, -88, 100, -100, 127, -127, 36, -36,
+             # the keyboard span (87) plus whole octaves, and neighbours
+             87, -87, 99, -99, 111, -111, 123, -123, 135, -135, 110, -110, 112, -112]
 
 
 def wrap(p):
@@ -40,8 +43,8 @@ def tonic(key_value):
 
 @st.composite
 def _case(draw):
-    region = draw(st.sampled_from(["low", "high", "mid", "both", "outside", "full"]))
-    pools = {"low": list(range(21, 33)), "high": list(range(97, 109)), "mid": list(range(55, 70)),
+    region = draw(st.sampled_from(["low", "high", "mid", "both", "outside", "full", "edge-low", "edge-high"]))
+    pools = {"edge-low": [21], "edge-high": [108],"low": list(range(21, 33)), "high": list(range(97, 109)), "mid": list(range(55, 70)),
              "both": list(range(21, 27)) + list(range(103, 109)), "outside": [0, 5, 12, 20, 21, 108, 109, 115, 127],
              "full": list(range(0, 128))}
     pitches = draw(st.lists(st.sampled_from(pools[region]), min_size=1, max_size=5, unique=True))
